@@ -257,7 +257,16 @@ def _table_case(case, rng):
         rows = [nest(r, rng if (mode != "same" and rng.random() < 0.5) else None) for r in rows_flat]
         how = rng.choice(["probs", "logits"])
         if how == "probs":
-            t = Pr(rows, probs=probs)
+            if rng.random() < 0.4:
+                # weights handed over in a numpy buffer that the caller REUSES afterwards (overwritten right after the
+                # table is built): the table must have taken its own copy
+                buf = np.array(probs, dtype=float)
+                t = Pr(rows, probs=buf)
+                buf[:] = buf[::-1].copy() if len(buf) > 1 else 0.123
+                buf += 0.5
+                case.count("tables_built_from_reused_numpy_buffers")
+            else:
+                t = Pr(rows, probs=probs)
             raw = list(probs)
             lg = [math.log(x) if x > 0 else -np.inf for x in probs]
         else:
@@ -278,7 +287,10 @@ def _table_case(case, rng):
 
     A, ra, wa, howa, rawa, lga = mk(pa)
     if mode == "same":
-        B, rb, wb, howb, rawb, lgb = mk(pb, rows_flat=[dict(r) for r in ra] if rng.random() < 0.5 else None)
+        same_rows = [dict(r) for r in ra] if rng.random() < 0.6 else None
+        if same_rows is not None and rng.random() < 0.7:
+            rng.shuffle(same_rows)          # the same rows, listed in another order
+        B, rb, wb, howb, rawb, lgb = mk(pb, rows_flat=same_rows)
     else:
         B, rb, wb, howb, rawb, lgb = mk(pb)
     if mode != "same" and rng.random() < 0.4:
